@@ -3958,7 +3958,7 @@ let meek_first_prefs a =
     else (match eb.erank with
           | [] -> set_crash a s0 AttributeError
           | top :: _ ->
-            (match a.floordivv v2 (a.of_int (nlen top)) with
+            (match a.divv v2 (a.of_int (nlen top)) with
              | Ok q0 ->
                let v = a.mulv q0 eb.emult in
                fold_left (fun s2 i -> add_vote a i v s2) top s0
